@@ -69,6 +69,9 @@ func c14Run(c *Ctx) {
 	if c.Idx == 0 {
 		c14StringProbe(c)
 	}
+	if c.Idx == 1 { // one pair whose broadcast result has more than 2^24 elements (the operands are small)
+		c14Pair(c, []int{4097, 1}, []int{1, 4096}, ref.U8)
+	}
 	nEx := c14Exhaustive()
 	exCases := (nEx + c14PairsPerCase - 1) / c14PairsPerCase
 	for k := 0; k < c14PairsPerCase; k++ {
@@ -95,6 +98,29 @@ func c14Run(c *Ctx) {
 			sb = c.R.Shape(0, 6, 9, 400)
 			if c.R.Chance(0.7) { // make them compatible more often
 				sb = compatibleWith(c.R, sa)
+			}
+			if c.R.Chance(0.04) { // ranks beyond 8, mostly extent 1
+				rk := c.R.Range(9, 11)
+				sa, sb = make([]int, rk), make([]int, c.R.Range(1, rk))
+				for i := range sa {
+					sa[i] = 1
+					if c.R.Chance(0.25) {
+						sa[i] = c.R.Range(2, 3)
+					}
+				}
+				for i := range sb {
+					j := len(sa) - len(sb) + i
+					sb[i] = 1
+					switch {
+					case sa[j] > 1 && c.R.Bool():
+						sb[i] = sa[j]
+					case sa[j] == 1 && c.R.Chance(0.4):
+						sb[i] = c.R.Range(2, 3)
+					}
+				}
+				if c.R.Bool() {
+					sa, sb = sb, sa
+				}
 			}
 			if len(sa) >= 3 && c.R.Chance(0.3) { // "one value per channel": (1, C, 1, ..., 1), also without the leading axes
 				sb = make([]int, len(sa))
